@@ -166,7 +166,7 @@ func TakeSnapshot(w *drv.World, o SnapOpts) (*Snapshot, error) {
 		return nil, err
 	}
 	for i, r := range resps {
-		s.add(names[i], bodyRepr(r.Status, r.Body))
+		s.add(names[i], normRead(reqs[i].URL, r.Status, r.Body))
 	}
 	return s, nil
 }
@@ -285,4 +285,48 @@ func catalogueReads(typ, base string) []proto.Req {
 		return f(base)
 	}
 	return []proto.Req{drv.GET(base + "/info")}
+}
+
+// normRead canonicalises responses whose byte form is not determined by the content:
+// instance info (null vs empty containers, store descriptions) and neuronjson lists whose
+// order the API leaves open (all, query: set; keys: numeric order).
+func normRead(url string, st int, body []byte) string {
+	path := url
+	if i := strings.IndexByte(path, '?'); i >= 0 {
+		path = path[:i]
+	}
+	if st == 200 && strings.HasSuffix(path, "/info") {
+		var v interface{}
+		if json.Unmarshal(body, &v) == nil {
+			b, _ := json.Marshal(scrubJSON(v, reposInfoDrop))
+			return bodyRepr(st, b)
+		}
+	}
+	if st == 200 && strings.Contains(path, "/nj/") {
+		switch {
+		case strings.HasSuffix(path, "/all") || strings.HasSuffix(path, "/query") || strings.HasSuffix(path, "/fields") && !strings.Contains(url, "counts"):
+			var l []interface{}
+			if json.Unmarshal(body, &l) == nil {
+				var items []string
+				for _, x := range l {
+					b, _ := json.Marshal(x)
+					items = append(items, string(b))
+				}
+				sort.Strings(items)
+				return bodyRepr(st, []byte("["+strings.Join(items, ",")+"]"))
+			}
+		case strings.HasSuffix(path, "/keys"):
+			var l []string
+			if json.Unmarshal(body, &l) == nil {
+				sort.Slice(l, func(i, j int) bool {
+					if len(l[i]) != len(l[j]) {
+						return len(l[i]) < len(l[j])
+					}
+					return l[i] < l[j]
+				})
+				return bodyRepr(st, []byte(strings.Join(l, ",")))
+			}
+		}
+	}
+	return bodyRepr(st, body)
 }
